@@ -2,7 +2,7 @@ package codecs
 
 // C11 — VP8 packetization is lossless and its descriptor decodes per RFC 7741.
 
-func verifC11Frame(tag string, p *VP8Payloader, mtu uint16, id uint16, frame []byte) {
+func verifC11Frame(tag string, p *VP8Payloader, mtu uint16, id uint16, frame []byte) [][]byte {
 	hdr := 1
 	if p.EnablePictureID {
 		hdr = 3
@@ -40,6 +40,7 @@ func verifC11Frame(tag string, p *VP8Payloader, mtu uint16, id uint16, frame []b
 	if len(pkts) > 1 {
 		verifCover("C11.multi")
 	}
+	return pkts
 }
 
 func VerifC11Payloader() {
@@ -53,7 +54,17 @@ func VerifC11Payloader() {
 		id = verifU16("id") & 0x7FFF
 		p.pictureID = id
 	}
-	verifC11Frame("C11.f1", p, mtu, id, frame)
+	first := verifC11Frame("C11.f1", p, mtu, id, frame)
+	var firstCopy [][]byte
+	for _, pk := range first {
+		firstCopy = append(firstCopy, append([]byte{}, pk...))
+	}
+	// the packets of an earlier frame stay as they were when later frames are payloaded
+	defer func() {
+		for i, pk := range first {
+			verifAssert("C11.f1.stable-after-later-frames", verifEqBytes(pk, firstCopy[i]))
+		}
+	}()
 	// the id advances with every frame, carried or not
 	next := (id + 1) & 0x7FFF
 	verifAssert("C11.id-advance", p.pictureID == next)
@@ -135,6 +146,8 @@ func VerifC11Descriptor() {
 	pkt := append(append([]byte{}, desc...), body...)
 	// receiver with arbitrary earlier contents
 	d := VP8Packet{X: verifU8("pre"), I: 1, L: 1, T: 1, K: 1, PictureID: verifU16("pre16"), TL0PICIDX: 9, TID: 3, Y: 1, KEYIDX: 31, N: 1, S: 1, PID: 7}
+	// the documented performance mode must decode the same fields
+	d.SetZeroAllocation(verifCase("zeroAllocation", 0, 1) == 1)
 	out, err := d.Unmarshal(pkt)
 	verifAssert("C11.d.accept", err == nil)
 	verifAssert("C11.d.payload", verifEqBytes(out, body) && verifEqBytes(d.Payload, body))
